@@ -11,6 +11,7 @@ import porepy as pp
 from porepy.fracs import split_grid
 
 TOL = 1e-9
+KEY_SHIFT = "create_mdg-cartesian-domain-not-at-origin"
 
 
 # ------------------------------------------------------------------ Coq literals
@@ -106,8 +107,10 @@ class C25(Prop):
         "C25_certificate_sound proves that acceptance implies the conformity statement (one host "
         "face per side, coinciding in centre and measure, split, tagged, opposite outward normals; "
         "mortar cells matching cells and faces one to one per side; fracture grids on their "
-        "line/plane; tags = coupled faces; host volume = domain volume) within 1e-9.  The oracle "
-        "is the same predicate in numpy.")
+        "line/plane; tags = coupled faces; host volume = domain volume) within 1e-9; "
+        "C25_certificate_request_sound adds the comparison with what was REQUESTED (fracture-grid "
+        "measure = requested fracture length/area, 3-D intersection-line length, host node span = "
+        "domain box, one fracture grid per fracture).  The oracle is the same predicate in numpy.")
     level_note = (
         "P-core.  NOT proved: gmsh meshing, _assemble_mdg face matching, create_interfaces / "
         "MortarGrid construction, node duplication (duplicate_nodes) and the geometry recomputation "
@@ -120,10 +123,15 @@ class C25(Prop):
                  "certificate evaluation on the real md-grid")
     rule = ("(a) split step: Cartesian 2-D grids with 1-2 face sets (interior lines, lines reaching or "
             "lying on the boundary, crossing lines, a bent face set as error input) through the real "
-            "split_faces; (b) full pipeline: 1-3 line fractures (isolated, X, T, L, touching the "
-            "boundary) on Cartesian grids [quick], plus simplex grids via gmsh and 1-2 rectangle "
-            "fractures in 3-D (Cartesian and simplex) [thorough] through pp.create_mdg; "
-            "non-trivial = at least one interface with two sides")
+            "split_faces; (b) full pipeline through pp.create_mdg: 1-3 line fractures (isolated, X, T, "
+            "L, touching the boundary, either orientation) drawn in index space and mapped through the "
+            "expected grid lines of: uniform Cartesian grids (cell_size / cell_size_x,y), Cartesian "
+            "grids whose cell size does NOT divide the extent (documented: round(L/cs) cells filling "
+            "the domain), TENSOR grids with non-uniform lines and domains not at the origin, and "
+            "Cartesian grids on domains not at the origin (open finding) [quick]; plus simplex grids "
+            "via gmsh (also translated domains) and 1-2 rectangle fractures in 3-D (Cartesian, "
+            "non-dividing, tensor, simplex) [thorough]; every grid is checked against the REQUESTED "
+            "fractures and domain; non-trivial = at least one interface with two sides")
     trusted = ["gmsh meshing and _assemble_mdg face matching are NOT modelled: their output is validated "
                "per instance by the certificate (conformity checker evaluated in Coq on the real "
                "face_cells / mortar maps, centres, normals, measures converted exactly to Q, tolerance "
@@ -164,9 +172,42 @@ class C25(Prop):
             rng.shuffle(sets[0])
         return {"kind": "split", "n": [nx, ny], "sets": sets}
 
-    def _gen_cart2d(self, rng):
+    # -- structured (Cartesian / tensor) networks are drawn in INDEX space and mapped through
+    #    the grid lines the mesher is expected to produce
+    def _lines(self, rng, n, mode, h):
+        if mode == "tensor":
+            x = rng.choice([0.0, 0.0, -1.5, 2.0])
+            out = [x]
+            for _ in range(n):
+                x += rng.choice([0.25, 0.5, 0.5, 1.0, 1.5, 2.0])
+                out.append(x)
+            return out
+        off = rng.choice([1.0, -0.5, 2.0]) if mode == "cart_shift" else 0.0
+        return [off + k * h for k in range(n + 1)]
+
+    def _struct_args(self, rng, mode, lines):
+        """meshing args for the structured grid with the given lines"""
+        if mode == "tensor":
+            keys = ["x_pts", "y_pts", "z_pts"]
+            return "tensor_grid", {k: list(l) for k, l in zip(keys, lines)}
+        keys = ["cell_size_x", "cell_size_y", "cell_size_z"]
+        args = {}
+        for k, l in zip(keys, lines):
+            n, L = len(l) - 1, l[-1] - l[0]
+            if mode == "cart_nondiv":
+                # a cell size that does not divide the extent; round(L / cs) is still n, the
+                # documented result is n cells that FILL the domain
+                args[k] = L / (n + rng.choice([0.25, -0.25, 0.375, -0.125]))
+            else:
+                args[k] = L / n
+        if mode != "cart_nondiv" and len(set(args.values())) == 1 and rng.random() < 0.5:
+            args = {"cell_size": args["cell_size_x"]}
+        return "cartesian", args
+
+    def _gen_struct2d(self, rng, mode):
         nx, ny = rng.randint(3, 6), rng.randint(3, 6)
         h = rng.choice([0.5, 1.0, 0.25])
+        xs, ys = self._lines(rng, nx, mode, h), self._lines(rng, ny, mode, h)
         conf = rng.choice(["one", "X", "T", "L", "two", "bdry", "three"])
         fr = []
         j = rng.randint(1, ny - 1)
@@ -199,8 +240,10 @@ class C25(Prop):
             i2 = rng.choice([x for x in range(1, nx) if x != i] or [i])
             if i2 != i:
                 fr.append([[i2, j], [i2, rng.randint(j + 1, ny)]])
-        return {"kind": "mdg", "grid": "cartesian", "dim": 2, "n": [nx, ny], "h": h,
-                "fracs": [[[p[0] * h, p[1] * h] for p in f] for f in fr]}
+        fr = [[[xs[p[0]], ys[p[1]]] for p in (f if rng.random() < 0.7 else f[::-1])] for f in fr]
+        grid, args = self._struct_args(rng, mode, [xs, ys])
+        return {"kind": "mdg", "grid": grid, "mode": mode, "dim": 2,
+                "box": [[xs[0], xs[-1]], [ys[0], ys[-1]]], "args": args, "fracs": fr}
 
     def _gen_simplex2d(self, rng):
         q = lambda lo, hi: rng.randint(lo, hi) / 4.0
@@ -222,47 +265,65 @@ class C25(Prop):
         else:
             fr.append([[0.25, 0.5], [1.75, 0.75]])
             fr.append([[0.25, 1.25], [1.5, 1.5]])
-        return {"kind": "mdg", "grid": "simplex", "dim": 2, "n": [2, 2], "h": 1.0,
-                "size": rng.choice([0.5, 0.7, 1.0]), "fracs": fr}
+        s = rng.choice([0.5, 0.7, 1.0])
+        off = rng.choice([0.0, 0.0, -1.0, 3.0])
+        fr = [[[p[0] + off, p[1] + off] for p in f] for f in fr]
+        return {"kind": "mdg", "grid": "simplex", "mode": "simplex", "dim": 2,
+                "box": [[off, 2 + off], [off, 2 + off]],
+                "args": {"cell_size": s, "cell_size_fracture": s, "cell_size_boundary": s}, "fracs": fr}
 
-    def _gen_3d(self, rng, grid):
-        n = 2 if grid == "simplex" else rng.randint(3, 4)
-        h = 1.0 if grid == "simplex" else 0.5
-        L = n * h
-        conf = rng.choice(["one", "X", "T"])
-        i = rng.randint(1, n - 1) * h
-        if grid == "simplex":
-            lo, hi = rng.choice([0.25, 0.5]), rng.choice([1.5, 1.75])
+    def _gen_3d(self, rng, mode):
+        if mode == "simplex":
+            xs = ys = zs = [0.0, 0.25, 0.5, 1.0, 1.5, 1.75, 2.0]
+            n = 6
+            i, k = 3, 3
+            lo, hi = rng.choice([1, 2]), rng.choice([4, 5])
         else:
-            lo, hi = h * rng.randint(0, 1), L - h * rng.randint(0, 1)
-        rect_y = lambda y, x0, x1, z0, z1: [[x0, y, z0], [x1, y, z0], [x1, y, z1], [x0, y, z1]]
-        rect_x = lambda x, y0, y1, z0, z1: [[x, y0, z0], [x, y1, z0], [x, y1, z1], [x, y0, z1]]
+            n = rng.randint(3, 4)
+            h = 0.5
+            xs, ys, zs = (self._lines(rng, n, mode, h) for _ in range(3))
+            i, k = rng.randint(1, n - 1), rng.randint(1, n - 1)
+            lo, hi = rng.randint(0, 1), n - rng.randint(0, 1)
+        conf = rng.choice(["one", "X", "T"])
+        rect_y = lambda j, x0, x1, z0, z1: [[x0, j, z0], [x1, j, z0], [x1, j, z1], [x0, j, z1]]
+        rect_x = lambda ii, y0, y1, z0, z1: [[ii, y0, z0], [ii, y1, z0], [ii, y1, z1], [ii, y0, z1]]
         fr = [rect_y(i, lo, hi, lo, hi)]
-        if conf == "X":
-            k = rng.randint(1, n - 1) * h
-            if lo < k < hi:
-                fr.append(rect_x(k, 0.0 if rng.random() < 0.3 else lo, hi if hi > i else L, lo, hi))
-        elif conf == "T" and i < L - h / 2:
-            k = rng.randint(1, n - 1) * h
-            if lo < k < hi:
-                fr.append(rect_x(k, i, L if rng.random() < 0.5 else min(L, i + h), lo, hi))
-        return {"kind": "mdg", "grid": grid, "dim": 3, "n": [n, n, n], "h": h,
-                "size": 0.8, "fracs": fr}
+        if conf == "X" and lo < k < hi:
+            y0 = 0 if (mode != "simplex" and rng.random() < 0.3) else lo
+            y1 = hi if hi > i else n
+            if y0 < i < y1:
+                fr.append(rect_x(k, y0, y1, lo, hi))
+        elif conf == "T" and i < n and lo < k < hi:
+            fr.append(rect_x(k, i, n if (mode != "simplex" and rng.random() < 0.5) else min(n - (1 if mode == "simplex" else 0), i + 1), lo, hi))
+        fr = [[[xs[p[0]], ys[p[1]], zs[p[2]]] for p in f] for f in fr]
+        if mode == "simplex":
+            grid, args = "simplex", {"cell_size": 0.8, "cell_size_fracture": 0.8, "cell_size_boundary": 0.8}
+        else:
+            grid, args = self._struct_args(rng, mode, [xs, ys, zs])
+        return {"kind": "mdg", "grid": grid, "mode": mode, "dim": 3,
+                "box": [[xs[0], xs[-1]], [ys[0], ys[-1]], [zs[0], zs[-1]]], "args": args, "fracs": fr}
 
     def generate(self, rng, n, tier):
         for it in range(n):
             r = rng.random()
             if tier == "quick":
-                yield self._gen_split(rng) if r < 0.4 else self._gen_cart2d(rng)
-            else:
-                if r < 0.25:
+                if r < 0.3:
                     yield self._gen_split(rng)
-                elif r < 0.5:
-                    yield self._gen_cart2d(rng)
+                else:
+                    yield self._gen_struct2d(rng, rng.choice(
+                        ["cartesian", "cartesian", "tensor", "tensor", "cart_nondiv", "cart_nondiv",
+                         "cart_shift"] if it % 8 == 7 else
+                        ["cartesian", "tensor", "tensor", "cart_nondiv"]))
+            else:
+                if r < 0.2:
+                    yield self._gen_split(rng)
+                elif r < 0.55:
+                    yield self._gen_struct2d(rng, rng.choice(
+                        ["cartesian", "tensor", "tensor", "cart_nondiv", "cart_nondiv", "cart_shift"]))
                 elif r < 0.75:
                     yield self._gen_simplex2d(rng)
-                elif r < 0.9:
-                    yield self._gen_3d(rng, "cartesian")
+                elif r < 0.92:
+                    yield self._gen_3d(rng, rng.choice(["cartesian", "tensor", "tensor", "cart_nondiv"]))
                 else:
                     yield self._gen_3d(rng, "simplex")
 
@@ -291,28 +352,50 @@ class C25(Prop):
         return {"before": before, "centers": centers, "after": _snapshot(g), "maps": maps}
 
     def _network(self, case):
-        if case["dim"] == 2:
-            fr = [pp.LineFracture(np.array(f, dtype=float).T) for f in case["fracs"]]
-            L = [k * case["h"] for k in case["n"]]
-            dom = pp.Domain({"xmin": 0, "xmax": L[0], "ymin": 0, "ymax": L[1]})
-            meas = L[0] * L[1]
-        else:
-            fr = [pp.PlaneFracture(np.array(f, dtype=float).T) for f in case["fracs"]]
-            L = [k * case["h"] for k in case["n"]]
-            dom = pp.Domain({"xmin": 0, "xmax": L[0], "ymin": 0, "ymax": L[1], "zmin": 0, "zmax": L[2]})
-            meas = L[0] * L[1] * L[2]
-        return pp.create_fracture_network(fr, dom), meas
+        box = case["box"]
+        keys = ["x", "y", "z"][:case["dim"]]
+        bb = {}
+        meas = 1.0
+        for k, (lo, hi) in zip(keys, box):
+            bb[k + "min"], bb[k + "max"] = lo, hi
+            meas *= hi - lo
+        cls = pp.LineFracture if case["dim"] == 2 else pp.PlaneFracture
+        fr = [cls(np.array(f, dtype=float).T) for f in case["fracs"]]
+        return pp.create_fracture_network(fr, pp.Domain(bb)), meas
+
+    @staticmethod
+    def _requested_measures(case):
+        """measure of every requested fracture, and (3-D, two axis-aligned rectangles) the
+        length of their intersection line"""
+        out = []
+        for f in case["fracs"]:
+            P = np.array(f, dtype=float)
+            if case["dim"] == 2:
+                out.append(float(np.linalg.norm(P[1] - P[0])))
+            else:
+                out.append(float(np.linalg.norm(np.cross(P[1] - P[0], P[3] - P[0]))))
+        line = None
+        if case["dim"] == 3 and len(case["fracs"]) == 2:
+            A, B = (np.array(f, dtype=float) for f in case["fracs"])
+            lo = np.maximum(A.min(axis=0), B.min(axis=0))
+            hi = np.minimum(A.max(axis=0), B.max(axis=0))
+            if np.all(hi >= lo):
+                line = float(np.max(hi - lo))
+        return out, line
 
     def _run_mdg(self, case):
         net, meas = self._network(case)
-        if case["grid"] == "cartesian":
-            args = {"cell_size": case["h"]}
-        else:
-            s = case["size"]
-            args = {"cell_size": s, "cell_size_fracture": s, "cell_size_boundary": s}
+        args = {k: (np.array(v, dtype=float) if isinstance(v, list) else v)
+                for k, v in case["args"].items()}
+        shifted = case["grid"] == "cartesian" and any(b[0] != 0 for b in case["box"])
         with warnings.catch_warnings():
             warnings.simplefilter("ignore")
-            mdg = pp.create_mdg(case["grid"], args, net)
+            try:
+                mdg = pp.create_mdg(case["grid"], args, net)
+            except Exception as e:
+                if shifted:     # open finding: part of the recorded behaviour of this input class
+                    return {"raised": type(e).__name__}
+                raise
         top = mdg.dim_max()
         ifaces = []
         coupled = {}
@@ -359,13 +442,25 @@ class C25(Prop):
                            "frac": frac, "pts": pts, "dims": [h.dim, l.dim]})
         hosts = []
         vols = []
+        bbox = []
+        req_f, req_line = self._requested_measures(case)
+        meas_req = []      # (cell volumes of a lower-dimensional grid, requested measure)
+        lines = [sd for sd in mdg.subdomains() if sd.dim == top - 2 and top == 3]
         for sd in mdg.subdomains():
             if sd.dim >= 1:
                 hosts.append([[int(f) for f in np.flatnonzero(sd.tags["fracture_faces"])],
                               sorted(coupled.get(id(sd), set()))])
             if sd.dim == top:
                 vols = [float(v) for v in sd.cell_volumes]
-        return {"ifaces": ifaces, "hosts": hosts, "vols": vols, "domain": float(meas)}
+                bbox = [[float(sd.nodes[k].min()), float(sd.nodes[k].max())] for k in range(top)]
+            if sd.dim == top - 1:
+                meas_req.append([[float(v) for v in sd.cell_volumes], req_f[int(sd.frac_num)]])
+        if top == 3 and len(case["fracs"]) == 2:
+            tot = [float(v) for sd in lines for v in sd.cell_volumes]
+            meas_req.append([tot, req_line if req_line is not None else 0.0])
+        nfr = sum(1 for sd in mdg.subdomains() if sd.dim == top - 1)
+        return {"ifaces": ifaces, "hosts": hosts, "vols": vols, "domain": float(meas),
+                "bbox": bbox, "meas": meas_req, "nfrac": nfr}
 
     def run_impl(self, case):
         if case["kind"] == "split":
@@ -376,6 +471,8 @@ class C25(Prop):
     def oracle(self, case, res):
         if case["kind"] == "split":
             return self._oracle_split(case, res)
+        if "raised" in res:
+            return f"create_mdg raised {res['raised']} for a Cartesian grid on a domain not at the origin"
         near = lambda x, y: abs(x - y) <= TOL * (1 + abs(y))
         vnear = lambda a, b: len(a) == len(b) and all(near(x, y) for x, y in zip(a, b))
         for k, it in enumerate(res["ifaces"]):
@@ -436,6 +533,14 @@ class C25(Prop):
                 return f"host grid {k}: fracture-face tags {tagged} differ from coupled faces {coupled}"
         if not near(sum(res["vols"]), res["domain"]):
             return f"host volume {sum(res['vols'])} differs from domain volume {res['domain']}"
+        for (lo, hi), (blo, bhi) in zip(res["bbox"], case["box"]):
+            if not near(lo, blo) or not near(hi, bhi):
+                return f"host grid spans {res['bbox']}, the domain is {case['box']}"
+        if res["nfrac"] != len(case["fracs"]):
+            return f"fracture grids: {res['nfrac']} for {len(case['fracs'])} requested fractures"
+        for vols, want in res["meas"]:
+            if not near(sum(vols), want):
+                return f"fracture grid of measure {sum(vols)} for a requested fracture (or intersection) of measure {want}"
         return None
 
     def _oracle_split(self, case, res):
@@ -474,16 +579,29 @@ class C25(Prop):
             else:
                 io = f"(SOk {_grid(res['after'])} {clist(res['maps'], _pairs)})"
             return f"split_agree {cen} {_grid(res['before'])} {fcs} {io}"
+        if "raised" in res:
+            return None
         hosts = clist(res["hosts"], lambda h: f"({clist(h[0], _nat)}, {clist(h[1], _nat)})")
-        return (f"conform (mkMDG {clist(res['ifaces'], _iface)} {hosts} {clist(res['vols'], cq)} "
+        mdgd = (f"(mkMDG {clist(res['ifaces'], _iface)} {hosts} {clist(res['vols'], cq)} "
                 f"{cq(res['domain'])})")
+        req = (f"(mkREQ {clist(res['meas'], lambda m: f'({clist(m[0], cq)}, {cq(m[1])})')} "
+               f"{clist(res['bbox'], lambda b: f'({cq(b[0])}, {cq(b[1])})')} "
+               f"{clist(case['box'], lambda b: f'({cq(b[0])}, {cq(b[1])})')} "
+               f"{_nat(res['nfrac'])} {_nat(len(case['fracs']))})")
+        term = f"conform_req {mdgd} {req}"
+        why = self.oracle(case, res)
+        if why and self.finding_key(case, res, why) == KEY_SHIFT:
+            return f"negb ({term})"     # open finding: Coq confirms the certificate rejects
+        return term
 
     def nontrivial(self, case, res):
         if case["kind"] == "split":
             return "after" in res and len(res["after"]["pairs"]) > 0
-        return any(it["sides"] == 2 for it in res["ifaces"])
+        return "ifaces" in res and any(it["sides"] == 2 for it in res["ifaces"])
 
     def finding_key(self, case, res, why):
+        if case.get("grid") == "cartesian" and any(b[0] != 0 for b in case.get("box", [])):
+            return KEY_SHIFT
         return "conformity-" + why.split(":")[0].split(" ")[0]
 
     def describe(self, case):
